@@ -36,6 +36,21 @@ def families():
     return out
 
 
+def families_large():
+    """beyond the 64 groups the property names (cheap, and the code holds there): a size-dependent fast path for experiments
+    with hundreds of arms must keep every group one interval, in declared order"""
+    out = []
+    for n in (100, 127, 128, 129, 200, 256):
+        out.append(["1"] * n)
+        out.append([str(1 + i % 3) for i in range(n)])
+        out.append([str(n - i) for i in range(n)])
+        v = ["1"] * n
+        v[n // 2] = "0"
+        out.append(v)
+        out.append(["5"] + ["1"] * (n - 2) + ["0.5"])
+    return out
+
+
 def fr(v):
     return [Fraction(x) for x in v]
 
